@@ -139,11 +139,11 @@ def read64(mem, addr40, big_endian):
     return z3.If(bits(addr40, 39, 32) == 0, v, BV(0, 64))
 
 
-def mair_decode(S, attrindx):
-    """MAIRDecode() for PL1&0.  `sure`: the encoding is one whose meaning table B4-? fixes without an IMPLEMENTATION
+def mair_decode(S, attrindx, hyp=False):
+    """MAIRDecode() for PL1&0 (MAIR0/1) or Hyp mode (HMAIR0/1).  `sure`: the encoding is one whose meaning table B4-? fixes without an IMPLEMENTATION
     DEFINED / transient-hint / UNPREDICTABLE clause (Strongly-ordered, Device, Normal with non-transient or
     non-cacheable inner and outer fields)."""
-    mair = cat(S.sys['mair1'], S.sys['mair0'])
+    mair = cat(S.sys['hmair1'], S.sys['hmair0']) if hyp else cat(S.sys['mair1'], S.sys['mair0'])
     field = bits(z3.LShR(mair, zx(attrindx, 64) * 8), 7, 0)
     hi, lo = bits(field, 7, 4), bits(field, 3, 0)
     is_so = z3.And(hi == 0, lo == 0)
@@ -164,26 +164,38 @@ def mair_decode(S, attrindx):
     }
 
 
-def translate_v_ld(S, va, ispriv, iswrite):
-    """stage-1 long-descriptor translation (TTBCR.EAE = 1), not in Hyp mode, no stage 2.
+def translate_v_ld(S, va, ispriv, iswrite, hyp=False):
+    """stage-1 long-descriptor translation (TTBCR.EAE = 1; or, with hyp=True, the Hyp-mode stage 1: HTTBR, HTCR.T0SZ,
+    HSCTLR.EE, HMAIRn), no stage 2.
     returns dict: fault, kind ('t'ranslation/'a'ccess flag/'p'ermission as Bools), level (2 bits), pa (40 bits), ns,
     attrs, unpred, first (level the walk starts at), final (level of the block/page descriptor)"""
-    sctlr = S.sys['sctlr']
-    ee = bit(sctlr, 25)
-    ttbcr = S.sys['ttbcr']
-    t0, t1 = bits(ttbcr, 2, 0), bits(ttbcr, 18, 16)
-    epd0, epd1 = bit(ttbcr, 7), bit(ttbcr, 23)
     pid = bits(S.sys['fcseidr'], 31, 25)
     mva = z3.If(bits(va, 31, 25) == 0, cat(pid, bits(va, 24, 0)), va)
     ia = mva
-    use0 = z3.Or(t0 == 0, z3.LShR(ia, 32 - zx(t0, 32)) == 0)
-    ones1 = z3.LShR(~ia, 32 - zx(t1, 32)) == 0
-    # B3.6.4: TTBR1 is used for the top 2^(32-T1SZ) bytes when T1SZ > 0; with T1SZ = 0 only where TTBR0 does not apply
-    use1 = z3.Or(z3.And(t1 == 0, z3.Not(use0)), z3.And(t1 != 0, ones1))
-    base_found = z3.Or(use0, use1)
-    tsz = z3.If(use1, t1, t0)
-    ttbr = z3.If(use1, bits(S.sys['ttbr1_64'], 39, 0), bits(S.sys['ttbr0_64'], 39, 0))
-    disabled = z3.If(use1, epd1, epd0)
+    if hyp:
+        ee = bit(S.sys['hsctlr'], 25)
+        t0 = bits(S.sys['htcr'], 2, 0)
+        use0 = z3.Or(t0 == 0, z3.LShR(ia, 32 - zx(t0, 32)) == 0)
+        use1 = z3.BoolVal(False)
+        base_found = use0
+        tsz = t0
+        ttbr = bits(S.sys['httbr'], 39, 0)
+        disabled = z3.BoolVal(False)
+    else:
+        sctlr = S.sys['sctlr']
+        ee = bit(sctlr, 25)
+        ttbcr = S.sys['ttbcr']
+        t0, t1 = bits(ttbcr, 2, 0), bits(ttbcr, 18, 16)
+        epd0, epd1 = bit(ttbcr, 7), bit(ttbcr, 23)
+        use0 = z3.Or(t0 == 0, z3.LShR(ia, 32 - zx(t0, 32)) == 0)
+        ones1 = z3.LShR(~ia, 32 - zx(t1, 32)) == 0
+        # B3.6.4: TTBR1 is used for the top 2^(32-T1SZ) bytes when T1SZ > 0; with T1SZ = 0 only where TTBR0 does
+        # not apply
+        use1 = z3.Or(z3.And(t1 == 0, z3.Not(use0)), z3.And(t1 != 0, ones1))
+        base_found = z3.Or(use0, use1)
+        tsz = z3.If(use1, t1, t0)
+        ttbr = z3.If(use1, bits(S.sys['ttbr1_64'], 39, 0), bits(S.sys['ttbr0_64'], 39, 0))
+        disabled = z3.If(use1, epd1, epd0)
     start2 = bits(tsz, 2, 1) != 0
     tz = zx(tsz, 40)
     balb = z3.If(start2, BV(14, 40) - tz, BV(5, 40) - tz)
@@ -225,7 +237,7 @@ def translate_v_ld(S, va, ispriv, iswrite):
     def acc(i):
         return z3.Or(z3.And(t1d, bit(d1, i)), z3.And(t2d, bit(d2, i)))
     ns_table, ap_ro, ap_nouser = acc(63), acc(62), acc(61)
-    lookup_secure = z3.And(S.is_secure(), z3.Not(ns_table))
+    lookup_secure = z3.BoolVal(False) if hyp else z3.And(S.is_secure(), z3.Not(ns_table))
     af = bit(D, 10)
     ap2 = z3.Or(bit(D, 7), ap_ro)
     ap1 = z3.And(bit(D, 6), z3.Not(ap_nouser))
@@ -234,7 +246,9 @@ def translate_v_ld(S, va, ispriv, iswrite):
     f_af = z3.And(z3.Not(f_tr), z3.Not(af))
     pab, pun = check_permission_fault(ap, ispriv, iswrite, vmsa=True)
     f_perm = z3.And(z3.Not(f_tr), af, pab)
-    m = mair_decode(S, bits(D, 4, 2))
+    m = mair_decode(S, bits(D, 4, 2), hyp)
+    # Hyp mode: AP[1] / APTable<0> / PXN / PXNTable / nG settings the architecture makes UNPREDICTABLE (B3.19.6, end)
+    unpred_hyp = z3.And(z3.BoolVal(hyp), z3.Not(f_tr), z3.Or(z3.Not(bit(D, 6)), ap_nouser, bit(D, 53), acc(59), bit(D, 11)))
     sh = bits(D, 9, 8)
     attrs = dict(m)
     attrs['shareable'] = z3.If(m['normal'], bit(D, 9), z3.BoolVal(True))
@@ -242,7 +256,7 @@ def translate_v_ld(S, va, ispriv, iswrite):
     return {
         'fault': z3.Or(f_tr, f_af, f_perm), 'f_tr': f_tr, 'f_af': f_af, 'f_perm': f_perm,
         'level': z3.If(f_tr, tr_level, final), 'mva': mva, 'pa': pa, 'ns': ns_out, 'attrs': attrs,
-        'unpred': z3.And(base_found, unpred_ttbr), 'start2': start2, 'final': final, 'use1': use1,
+        'unpred': z3.Or(z3.And(base_found, unpred_ttbr), unpred_hyp), 'start2': start2, 'final': final, 'use1': use1,
         'visited': (l1_visited, l2_visited, l2_tab),
         'tables': ((l1_tab, d1), (l2_tab, d2)), 'attrindx': bits(D, 4, 2),
     }
